@@ -80,6 +80,8 @@ pub trait World {
     fn key(&self) -> String;
     /// Property monitors violated in the current state (evaluated on the implementation).
     fn monitors(&self, woken: &BTreeSet<u32>) -> Vec<String>;
+    /// Called before every op with "every woken task has been polled again".
+    fn note_quiescent(&mut self, _q: bool) {}
     /// The op line `settle` (and the woken-biased random choice) uses to re-poll future `f`.
     fn repoll_op(&self, _f: u32) -> Option<String> {
         None
@@ -116,6 +118,7 @@ impl Runner {
                 let Some(&f) = self.woken.iter().next() else { break };
                 match self.world.repoll_op(f) {
                     Some(op) => {
+                        self.world.note_quiescent(self.woken.is_empty());
                         self.woken.remove(&f);
                         let _ = self.world.exec(&op);
                         polls += 1;
@@ -134,6 +137,7 @@ impl Runner {
             let mons = self.world.monitors(&self.woken);
             return (obs, mons);
         }
+        self.world.note_quiescent(self.woken.is_empty());
         if toks.first() == Some(&"poll") || toks.first() == Some(&"dropf") {
             if let Some(f) = toks.get(1).and_then(|x| x.parse::<u32>().ok()) {
                 self.woken.remove(&f);
@@ -367,6 +371,52 @@ pub fn random(
             stats.monitor_hits += 1;
         }
         emit(out, "settle 64", &obs, &mons);
+    }
+}
+
+/// Random continuations of a fixed prefix (search after a correspondence break).
+pub fn random_from(
+    new_line: &str,
+    mk: Maker,
+    prefix: &[String],
+    count: usize,
+    len: usize,
+    rng: &mut Rng,
+    out: &mut dyn Write,
+    stats: &mut Stats,
+) {
+    for _ in 0..count {
+        let mut r = Runner::new(new_line, mk).expect("bad new line");
+        emit(out, new_line, &format!("ok | w= | {}", r.world.snapshot()), &[]);
+        stats.histories += 1;
+        for op in prefix {
+            let (obs, mons) = r.exec(op);
+            emit(out, op, &obs, &mons);
+        }
+        for _ in 0..len {
+            let cands = r.world.candidates(false);
+            if cands.is_empty() {
+                break;
+            }
+            let mut op = cands[rng.below(cands.len())].clone();
+            if !r.woken.is_empty() && rng.chance(1, 2) {
+                let w: Vec<u32> = r.woken.iter().cloned().collect();
+                let f = w[rng.below(w.len())];
+                let pre = format!("poll {} ", f);
+                let polls: Vec<&String> = cands.iter().filter(|c| c.starts_with(&pre)).collect();
+                if !polls.is_empty() {
+                    op = polls[rng.below(polls.len())].clone();
+                }
+            }
+            let (obs, mons) = r.exec(&op);
+            stats.record(&op, &obs);
+            let hit = !mons.is_empty();
+            emit(out, &op, &obs, &mons);
+            if hit {
+                stats.monitor_hits += 1;
+                break;
+            }
+        }
     }
 }
 
